@@ -277,6 +277,11 @@ Cond(args, root, at) ==
        ELSE IF c.v.v THEN Eval(args[1].v, c.root, c.at)
        ELSE Cond(Tail(args), c.root, c.at)
 
+\* storing a value that contains the root itself makes the root cyclic: outside the value universe
+RECURSIVE Contains(_, _)
+Contains(v, x) == \/ v = x
+                  \/ (v.t = "arr" /\ \E j \in 1..Len(v.v) : Contains(v.v[j], x))
+                  \/ (v.t = "obj" /\ \E y \in DOMAIN v.m : Contains(v.m[y], x))
 Mutate(f, args, root, at) ==
   LET need == IF f \in {"set", "setall"} THEN 2 ELSE 1 IN
   IF Len(args) # need THEN AnyR
@@ -286,6 +291,9 @@ Mutate(f, args, root, at) ==
            rv == IF need = 2 THEN Eval(args[2], root, at) ELSE Ok(Null, root, at) IN
        IF rv.k # "ok" THEN [k |-> rv.k]
        ELSE IF rv.at.al THEN AnyR                                   \* aliasing allowance
+       ELSE IF need = 2 /\ Contains(rv.v, rv.root) THEN AnyR
+       ELSE IF need = 2 /\ rv.v.t \in {"arr", "obj"} /\ \E j \in 0..(Len(p.fr) - 1) : Look(rv.root, SubSeq(p.fr, 1, j)) = rv.v
+            THEN AnyR                                               \* a container stored inside itself (if not copied: a cycle)
        ELSE IF p.at /\ rv.at.mode # "root" THEN AnyR                \* mutation through a detached local value
        ELSE LET r == IF need = 2 THEN Put(rv.root, p.fr, rv.v) ELSE Del(rv.root, p.fr) IN
             IF r.k # "ok" THEN [k |-> r.k]
